@@ -184,6 +184,14 @@ class HttpxTransport:
                         current_request_kwargs[key] = [*current, *added.items()]
                     else:
                         current_request_kwargs[key] = {**dict(current or {}), **added}
+                    cookie_header = next((name for name in prepared_headers if name.lower() == "cookie"), None)
+                    if key == "cookies" and cookie_header is not None:
+                        # httpx derives the Cookie header from `cookies` only for a request that has none yet:
+                        # fold them into the existing header instead of letting the plugin's cookie be dropped
+                        cookies = dict(current_request_kwargs.pop(key))
+                        prepared_headers[cookie_header] = "; ".join(
+                            [prepared_headers[cookie_header], *(f"{name}={value}" for name, value in cookies.items())]
+                        )
         elif self._bearer_token is not None:
             # If no auth plugin, but bearer token is present, add/overwrite Authorization header.
             set_header(prepared_headers, "Authorization", f"Bearer {self._bearer_token}")
